@@ -55,14 +55,18 @@ def case_checks(fx, opnum):
             blk = fn.blocks[b]
             for e in blk['el']:
                 if e['k'] in CALL_KINDS and (e.get('fq') or '').split('::')[-1] in VALIDATORS and 'decoder' in (e.get('fq') or ''):
-                    txt = fn.render(e).replace('this.', '')
-                    if e['fq'].endswith('::failure'):
-                        fs = sorted(set('%s %s %s' % f[:3] for f in dom.facts_at(fn, e['i'])
-                                        if 'graphite2::vm::Machine::Code::decoder::fetch_opcode' not in f[0]))
-                        # keep only the innermost guard facts that are specific to this failure call
-                        txt = txt + ' if ' + ' & '.join(fs[-3:]) if fs else txt
-                    if txt not in checks:
-                        checks.append(txt)
+                    sp = []
+                    for res in (False, True):
+                        txt = fn.render(e, resolve=res).replace('this.', '')
+                        if e['fq'].endswith('::failure'):
+                            fs = sorted(set('%s %s %s' % f[:3] for f in dom.facts_at(fn, e['i'])
+                                            if 'graphite2::vm::Machine::Code::decoder::fetch_opcode' not in f[0]))
+                            # keep only the innermost guard facts that are specific to this failure call
+                            txt = txt + ' if ' + ' & '.join(fs[-3:]) if fs else txt
+                        if txt not in sp:
+                            sp.append(txt)
+                    if sp not in checks:
+                        checks.append(sp)
             if (blk.get('term') or {}).get('k') == 'BreakStmt':
                 continue
             for x in fn.succs(b):
@@ -89,16 +93,19 @@ def check(run, vm, rule='OPERANDCHECK'):
         if have is None:
             run.violated(rule, 'opcode %s' % op, fn.where(), 'fetch_opcode has no case for %s any more: its operands are not validated (falls to default?)' % op)
             continue
+        have_all = set(x for h in have for x in h)
         for c in checks:
             n += 1
+            spell = c if isinstance(c, list) else [c]
+            c = spell[0]
             inst = '%s: %s' % (op, c[:70])
             why = [v for k, v in LOAD_BEARING.items() if k in c]
-            if c in have:
+            if any(x in have_all for x in spell):
                 run.held(rule, inst, fn.where(), why[0] if why else 'validation present', bool(why))
                 continue
             # a validation of the same kind with the same operand but another limit = weakened; otherwise dropped
             head = c.split('(')[0]
-            same = [h for h in have if h.split('(')[0] == head]
+            same = [h[0] for h in have if h[0].split('(')[0] == head]
             run.violated(rule, inst, fn.where(), 'the bytecode loader no longer performs `%s` for opcode %s (now: %s)%s'
                          % (c, op, same or 'no %s at all' % head, ': ' + why[0] if why else ''))
     return n
